@@ -56,7 +56,7 @@ def run(chk):
         X, y = U.class_data(rng, n_classes=ncls)
         k, n = X.shape
         if rng.random() < 0.35:
-            X = X * float(2 ** int(rng.integers(12, 31)))          # the same data in large units (up to ~1e9): small weights
+            X = X * float(2 ** int(rng.integers(12, 41)))          # the same data in large units (up to ~1e12): small weights
         bcfg = U.basis_cfg(rng, n, k)
         if ncls > 2 and rng.random() < 0.4 and bcfg["kind"] != "Identity":
             bcfg["n_basis_modes"] = min(ncls, n - 1, k - 1) if min(ncls, n - 1, k - 1) >= 2 else bcfg["n_basis_modes"]
